@@ -239,6 +239,7 @@ class Exec:
         self.tier = tier
         self.call_depth = 0
         self.assumed: set[str] = set()  # trusted contracts / builtin facts actually used
+        self.carves: list = []  # (regex over obligation names, python expression over the locals at the obligation) from KNOWN_FINDINGS.txt
         if contract.loops and max(contract.loops) > len(self.loops):
             raise AnchorMismatch(
                 f"{qualname}: contract has an invariant for loop {max(contract.loops)} but the function has {len(self.loops)} loops"
@@ -280,6 +281,18 @@ class Exec:
         self.obligations.append(
             Obligation(name, st.hyps() + list(extra_hyps), goal, self.qualname, kind, line, "unsat", note, mv)
         )
+        # recorded findings with a carve-out: the RESIDUAL obligation (same goal, outside the carve-out) must still be discharged,
+        # so that a different violation of the same clause is still reported
+        import re as _re
+
+        for rx, cexpr in self.carves:
+            if _re.search(rx, name):
+                try:
+                    cz = self.spec_bool(cexpr, st)
+                except Unsupported:
+                    cz = z3.BoolVal(False)  # the carve-out mentions locals that do not exist on this path: not carved
+                self.obligations.append(Obligation(name + "~residual", st.hyps() + list(extra_hyps) + [z3.Not(cz)], goal, self.qualname, kind, line, "unsat", "residual of a recorded finding", mv, name, "residual"))
+                break
 
     def vacuity(self, st: State, anchor: str):
         name = f"{self.qualname}/vacuity/{anchor}"
